@@ -118,6 +118,10 @@ def size(case):
     return (case["n"] or len(case["lit"])) + sum(abs(case[n]) for n, _ in FIELDS)
 
 
+TIES = ["header word of create_ccsds_packet = Model/Header.v header_word (gen_header_word_is_model)",
+        "create_ccsds_packet, whole = create_packet (gen_create_packet_is_model; generated_create_packet_meets_C13, generated_create_packet_rejects)"]
+
+
 def tables():
     ok, msg = gen_tables.check("TablesOk_C13")
     if not ok:
